@@ -86,6 +86,11 @@ func VC27_Process() {
 	msg[5] = uint8(vParam("type"))
 	r := newRouter(net.IP{10, 0, 255, 1}, 0, adjRIBInFactory{}, RouterConfig{})
 	r.con = &c27Conn{}
+	if vParam("after_up") == 2 {
+		// the monitored router announces the same session twice (no peer-down in between)
+		r.processMsg(c27PeerUp())
+		r.processMsg(c27PeerUp())
+	}
 	if vParam("after_up") == 1 {
 		// a session exists already (so that route monitoring / peer down for it are acted upon)
 		r.processMsg(c27PeerUp())
